@@ -761,6 +761,9 @@ func SubstituteAtom(d DNF, atom string, whenTrue, whenFalse DNF) DNF {
 			repl = whenTrue
 		}
 		out = out.or(andDNF(DNF{rest}, repl))
+		if len(out) > 1024 {
+			return out
+		}
 	}
 	return simplify(out)
 }
@@ -779,8 +782,24 @@ func (t *Table) ExpandUnknown(known func(atom string) bool) {
 			if !ok {
 				continue
 			}
+			// bounded: an expansion that blows a condition up is not applied
+			if len(wt) > 64 || len(wf) > 64 {
+				continue
+			}
+			newConds := make([]DNF, len(t.Rows))
+			tooBig := false
 			for i := range t.Rows {
-				t.Rows[i].Cond = SubstituteAtom(t.Rows[i].Cond, a, wt, wf)
+				newConds[i] = SubstituteAtom(t.Rows[i].Cond, a, wt, wf)
+				if len(newConds[i]) > 512 {
+					tooBig = true
+					break
+				}
+			}
+			if tooBig {
+				continue
+			}
+			for i := range t.Rows {
+				t.Rows[i].Cond = newConds[i]
 			}
 			changed = true
 		}
@@ -805,10 +824,14 @@ func ExpandDNF(d DNF, known func(atom string) bool) DNF {
 				continue
 			}
 			wt, wf, ok := ExpandAtom(a)
-			if !ok {
+			if !ok || len(wt) > 64 || len(wf) > 64 {
 				continue
 			}
-			d = SubstituteAtom(d, a, wt, wf)
+			nd := SubstituteAtom(d, a, wt, wf)
+			if len(nd) > 512 {
+				continue
+			}
+			d = nd
 			changed = true
 		}
 		if !changed {
